@@ -6,7 +6,7 @@ UNITS = [
          stops=["asmjit::CodeWriterUtils::write_offset", "asmjit::CodeHolder_evaluate_expression", "asmjit::CodeHolder::reserve_buffer", "asmjit::ArenaTree::get"],
          target="CodeHolder_relocate_to_base", contracts="contracts/c04_reloc.h",
          replace=["CodeWriterUtils_write_offset", "CodeHolder_reserve_buffer", "CodeHolder_evaluate_expression",
-                  "ArenaTree_AddressTableEntry_get_u64_Support_Compare_Support_SortOrder_kAscending"], unwind=10, object_bits=10, mem_gb=24,
+                  "ArenaTree_AddressTableEntry_get_u64_Support_Compare_Support_SortOrder_kAscending"], unwind=10, object_bits=10, mem_gb=24, replay="replay/c04_relocate.cpp",
          kind="bounded", bound_note="<= 1 relocation entry, 2 sections (buffers <= 24 bytes), no address-table section, no expression entries; base address, payload, offsets, format symbolic",
          note="modular: write_offset replaced by its contract (unit c17.write_offset); reserve_buffer / evaluate_expression are unreachable in the covered configurations (requires(false) contracts are asserted at call sites)",
          trusted=["ArenaTree<AddressTableEntry>::get replaced by an assumed contract (empty table)"]),
